@@ -69,6 +69,8 @@ struct Case
     int fmtstate = 0; // formatting state of the second target stream (bits: fill '0', fill '*', hex/showbase/
                       // uppercase, left, boolalpha, fixed with precision 2)
     bool early = false; // usage() is also called once before any entry is declared (the groups exist, empty)
+    int before = 0; // things done with the parser before usage(): bit 0 a parse() of an empty command line,
+                    // bit 1 a rejected short_name("xy") on every entry without a letter, bit 2 group("__default")
 
     template <class A>
     void io(A& a)
@@ -85,6 +87,7 @@ struct Case
         a("columns", columns);
         a("fmtstate", fmtstate);
         a("early", early);
+        a("before", before);
     }
 };
 
@@ -228,6 +231,8 @@ Case generate(vf::Src& src, const std::string&)
     if (src.coin(30))
         c.fmtstate = src.irange(1, 63);
     c.early = src.coin(20);
+    if (src.coin(30))
+        c.before = src.irange(1, 7);
     return c;
 }
 
@@ -326,6 +331,40 @@ static std::unique_ptr<nitro::options::parser> build(const Case& c)
     else if (c.limit > 0)
         p->accept_positionals(static_cast<std::size_t>(c.limit));
     p->positional_metavar(c.posname);
+    if (c.before & 2)
+        for (auto& e : c.e)
+            if (e.short_.empty())
+            {
+                // a short name of two characters is refused (developer error) - and leaves no trace
+                nitro::options::group& grp =
+                    e.group == 0 ? p->group() : p->group(c.groups[static_cast<std::size_t>(e.group - 1)].name);
+                try
+                {
+                    if (e.kind == 0)
+                        grp.option(e.name, e.desc).short_name("xy");
+                    else if (e.kind == 1)
+                        grp.multi_option(e.name, e.desc).short_name("xy");
+                    else
+                        grp.toggle(e.name, e.desc).short_name("xy");
+                }
+                catch (const nitro::options::parser_error&)
+                {
+                }
+            }
+    if (c.before & 4)
+        (void)p->group("__default"); // the default group under its internal name
+    if (c.before & 1)
+    {
+        // an ordinary run of the program before the text is asked for: parse() does not change what is declared
+        try
+        {
+            const char* argv[] = { "prog" };
+            (void)p->parse(1, argv);
+        }
+        catch (const std::exception&)
+        {
+        }
+    }
     // the usage text belongs to the declaration, not to the object it was made on
     if (c.moved == 1)
         p = std::make_unique<parser>(std::move(*p));
@@ -388,6 +427,8 @@ std::string check(const Case& c, vf::Ctx& ctx)
     }
     if (c.early)
         ctx.tag("usage:also-called-before-the-entries-were-declared");
+    if (c.before)
+        ctx.tag("parser:used-before-usage");
     p->usage(used);
     std::string text2 = used.str().substr(prior.size());
 
